@@ -6,12 +6,22 @@ require (
 	github.com/anishathalye/porcupine v1.3.0
 	github.com/miekg/dns v1.1.72
 	github.com/semihalev/sdns v0.0.0
+	github.com/semihalev/zlog/v2 v2.0.8
 )
 
 require (
+	github.com/BurntSushi/toml v1.6.0 // indirect
+	github.com/beorn7/perks v1.0.1 // indirect
 	github.com/cespare/xxhash/v2 v2.3.0 // indirect
+	github.com/munnerz/goautoneg v0.0.0-20191010083416-a7dc8b61c822 // indirect
+	github.com/prometheus/client_golang v1.24.1 // indirect
+	github.com/prometheus/client_model v0.6.2 // indirect
+	github.com/prometheus/common v0.70.1 // indirect
+	github.com/prometheus/procfs v0.21.1 // indirect
 	golang.org/x/net v0.57.0 // indirect
+	golang.org/x/sync v0.22.0 // indirect
 	golang.org/x/sys v0.47.0 // indirect
+	google.golang.org/protobuf v1.36.12-0.20260120151049-f2248ac996af // indirect
 )
 
 replace github.com/semihalev/sdns => /repo
